@@ -14,6 +14,7 @@ import (
 	"github.com/coredhcp/coredhcp/plugins/prefix"
 	"github.com/insomniacslk/dhcp/dhcpv6"
 
+	"verif/internal/engarith"
 	"verif/internal/fw"
 	"verif/internal/model"
 	"verif/internal/pkt"
@@ -37,7 +38,7 @@ func init() { register("prefix", prefixEngine{}) }
 var prefixShapes = [][2]int{{56, 64}, {60, 64}, {62, 64}, {64, 64}, {48, 52}, {120, 124}, {61, 64}, {63, 65}, {58, 60}}
 
 func genPool(rng *rand.Rand, plen int) string {
-	base := pattern128(rng)
+	base := engarith.Pattern128(rng)
 	if rng.Intn(2) == 0 {
 		base.SetString("20010db8000000000000000000000000", 16)
 		base.Add(base, new(big.Int).Lsh(big.NewInt(int64(rng.Intn(1<<16))), 64))
@@ -50,7 +51,7 @@ func genPool(rng *rand.Rand, plen int) string {
 		base.Rsh(base, sft)
 		base.Lsh(base, sft)
 	}
-	return fmt.Sprintf("%s/%d", ipOf(base), plen)
+	return fmt.Sprintf("%s/%d", engarith.IPOf(base), plen)
 }
 
 func (prefixEngine) Gen(rng *rand.Rand, tier string, i int) any {
@@ -93,6 +94,7 @@ type pdRun struct {
 	xid    uint32
 	trace  []string
 	nmsgs  map[int]int
+	lastTyp map[int]byte
 	sawRenew bool
 }
 
@@ -110,7 +112,7 @@ func (r *pdRun) blockAddr(idx int64) net.IP {
 	if v.Sign() < 0 || v.BitLen() > 128 {
 		return nil
 	}
-	return ipOf(v)
+	return engarith.IPOf(v)
 }
 
 type hintSpec struct {
@@ -181,7 +183,15 @@ func (r *pdRun) buildMsg(ci int, retransmit []byte) ([]byte, string) {
 	client := string(r.duids[ci])
 	typ := []byte{1, 1, 3, 5, 6, 3}[r.rng.Intn(6)] // SOLICIT, REQUEST, RENEW, REBIND
 	r.xid++
-	opts := []pkt.Opt6{pkt.O6(pkt.OptClientID6, r.duids[ci]), pkt.O6(pkt.OptElapsed, []byte{0, byte(r.rng.Intn(200))})}
+	if lt, ok := r.lastTyp[ci]; ok && r.rng.Intn(5) == 0 {
+		// a DIFFERENT message that reuses the client's previous transaction id and type (24-bit ids do
+		// collide, and some clients keep one id per exchange): it is not a retransmission
+		typ = lt
+		r.xid--
+		r.ctx.Count("prefix.xid_reused_for_other_message", 1)
+	}
+	r.lastTyp[ci] = typ
+	opts := []pkt.Opt6{pkt.O6(pkt.OptClientID6, r.duids[ci]), pkt.O6(pkt.OptElapsed, []byte{byte(r.rng.Intn(2)), byte(r.rng.Intn(200))})}
 	npd := []int{1, 1, 1, 1, 2, 2, 3, 0}[r.rng.Intn(8)]
 	var desc []string
 	for j := 0; j < npd; j++ {
@@ -357,7 +367,7 @@ func (prefixEngine) Run(ctx *fw.Ctx, cs any) {
 		ctx.Viol("C08", "setup-fails", "prefix plugin setup(%s, %d) failed: %v", c.Pool, c.Alloc, err)
 		return
 	}
-	r := &pdRun{ctx: ctx, c: c, rng: rand.New(rand.NewSource(c.Seed)), pool: pool, nmsgs: map[int]int{}}
+	r := &pdRun{ctx: ctx, c: c, rng: rand.New(rand.NewSource(c.Seed)), pool: pool, nmsgs: map[int]int{}, lastTyp: map[int]byte{}}
 	r.m = model.NewPrefixModel(pool, c.Alloc)
 	r.s = newSrv6([]handler.Handler6{h}, loIface())
 	for i := 0; i < c.Clients; i++ {
